@@ -4,8 +4,9 @@ Per case one Problem (+ one instantaneous and one durative action) is built thro
 values are drawn from a pool of every type (matching and mismatching): Problem(initial_defaults=...), add_fluent(...,
 default_initial_value=...), set_initial_value, add_effect/add_increase_effect/add_decrease_effect on actions, durative
 action timings and problem timed effects, ActionInstance(...).  After every *accepted* call the monitor vk/mon/modeltypes.py
-scans everything the model stores: every value must be Type.is_compatible with its target and every stored initial /
-default value must be a constant.  After every *rejected* call the accessor-based snapshot of the model must be unchanged.
+scans everything the model stores: every value must be compatible with its target (constants: own bounds / Boolean /
+ancestor check, independent of the library's type lattice; non-constant expressions: Type.is_compatible) and every stored
+initial / default value must be a constant.  After every *rejected* call the accessor-based snapshot of the model must be unchanged.
 """
 from fractions import Fraction
 
@@ -22,13 +23,14 @@ LEVEL_TEXT = (
     "stores; held on the calls observed only."
 )
 LEVEL_NOTE = (
-    "Trusted: CPython, FNode.type / is_constant, Type.is_compatible (the property's own notion of compatibility, hazard H5), "
+    "Trusted: CPython, FNode.type / is_constant / constant_value, Type bounds and .father accessors; Type.is_compatible only for "
+    "non-constant expressions (for constants the monitor decides membership itself: bounds, Boolean, ancestor walk), "
     "read-only accessors fluents_defaults / initial_defaults / explicit_initial_values / initial_values / effects / "
     "timed_effects / actual_parameters. Whether a compatible value must be accepted is not judged (don't-care, counted)."
 )
 RULE = (
-    "case = history of ~25 calls on one problem: Problem(initial_defaults) ; add_fluent for 14 fluents (Boolean, int[0,5], int, "
-    "real[0,7/2], real, user types T > S and sibling U, two parameterised) with / without default_initial_value ; then 10 random "
+    "case = history of ~30 calls on one problem: Problem(initial_defaults) ; add_fluent for 18 fluents (Boolean, int[0,5], int, "
+    "real[0,7/2], real, one-sided int[0,inf] / int[-inf,3] / real[0,inf] / real[-inf,100], user types T > S and sibling U, two parameterised) with / without default_initial_value ; then 10 random "
     "calls of set_initial_value / add_effect / add_increase_effect / add_decrease_effect (instantaneous action, durative action "
     "timing, problem timed effect) / ActionInstance. Values: Python and FNode constants of every type (inside / outside "
     "bounds, sub / super / sibling objects), fluent expressions, arithmetic / Boolean expressions, parameters, raw Fluent / "
@@ -36,7 +38,7 @@ RULE = (
     "constant?) with an incompatible value type or a non-constant value for an initial / default value."
 )
 ASSUMPTIONS = [
-    "'type-compatible' is the library's own Type.is_compatible (overlapping numeric intervals, int->real, subtype objects)",
+    "'type-compatible' for a constant = membership in the target type (bounds; int constants fit real targets, real constants never fit int targets; an object fits its type and its ancestors); for a non-constant expression = the library's own Type.is_compatible (overlapping numeric intervals, int->real, subtype objects)",
     "a rejection is any exception raised by the call; its class is counted, not judged",
     "acceptance of compatible values is not demanded by the statement (don't-care)",
 ]
@@ -49,6 +51,10 @@ TYPES = {
     "int": ["int", None, None],
     "real0_72": ["real", "0", "7/2"],
     "real": ["real", None, None],
+    "int0_": ["int", 0, None],  # bounded on one side only
+    "int_3": ["int", None, 3],
+    "real0_": ["real", "0", None],
+    "real_100": ["real", None, "100"],
     "T": ["user", "T"],
     "S": ["user", "S"],
     "U": ["user", "U"],
@@ -62,6 +68,10 @@ FLUENTS = [
     ("n2", "int", []),
     ("r", "real0_72", []),
     ("q", "real", []),
+    ("h", "int0_", []),
+    ("h2", "int_3", []),
+    ("g", "real0_", []),
+    ("g2", "real_100", []),
     ("t", "T", []),
     ("t2", "T", []),
     ("s", "S", []),
@@ -69,12 +79,13 @@ FLUENTS = [
     ("bp", "bool", [["x", "T"]]),
     ("kp", "int05", [["x", "S"]]),
 ]
-PARAMS = [("pT", "T"), ("pS", "S"), ("pI", ["int", 0, 2])]
+PARAMS = [("pT", "T"), ("pS", "S"), ("pI", ["int", 0, 2]), ("pH", ["int", 0, None])]
 
 CONSTS = [
     ["py", True], ["py", False], ["py", 0], ["py", 3], ["py", 5], ["py", 7], ["py", -1], ["frac", "1/2"], ["frac", "7/2"],
     ["frac", "5"], ["float", 2.5], ["obj", "oT"], ["obj", "oS"], ["obj", "oU"], ["e", ["o", "oT"]], ["e", ["o", "oS"]],
-    ["e", ["i", 4]], ["e", ["r", "3/2"]], ["e", ["b", True]],
+    ["e", ["i", 4]], ["e", ["r", "3/2"]], ["e", ["b", True]], ["py", 250], ["py", -4], ["frac", "-3/2"], ["frac", "301/2"], ["e", ["i", -2]],
+    ["e", ["r", "-1/4"]],
 ]
 EXPRS = [
     ["e", ["f", "b2"]], ["e", ["f", "k2"]], ["e", ["f", "n2"]], ["e", ["f", "q"]], ["e", ["f", "t2"]], ["e", ["f", "s"]],
@@ -82,18 +93,22 @@ EXPRS = [
     ["e", ["plus", ["f", "k2"], ["i", 1]]], ["e", ["not", ["f", "b2"]]], ["e", ["times", ["f", "q"], ["i", 2]]],
     ["fluent", "b2"], ["fluent", "n2"], ["fluent", "t2"],
 ]
-PARAM_EXPRS = [["e", ["p", "pT"]], ["e", ["p", "pS"]], ["e", ["p", "pI"]]]
+PARAM_EXPRS = [["e", ["p", "pT"]], ["e", ["p", "pS"]], ["e", ["p", "pI"]], ["e", ["p", "pH"]]]
 MATCHING = {
     "bool": [["py", True], ["py", False], ["e", ["f", "b2"]], ["e", ["not", ["f", "b2"]]], ["e", ["b", False]]],
     "int05": [["py", 0], ["py", 3], ["py", 5], ["e", ["f", "k2"]], ["e", ["plus", ["f", "k2"], ["i", 1]]], ["e", ["i", 2]]],
     "int": [["py", 0], ["py", 7], ["py", -1], ["e", ["f", "n2"]], ["e", ["plus", ["f", "n2"], ["i", 1]]]],
     "real0_72": [["frac", "1/2"], ["frac", "7/2"], ["py", 3], ["py", 0], ["e", ["f", "k2"]], ["float", 2.5]],
     "real": [["frac", "1/2"], ["py", 7], ["e", ["f", "q"]], ["e", ["f", "n2"]], ["float", 2.5]],
+    "int0_": [["py", 0], ["py", 7], ["py", 250], ["e", ["f", "k2"]], ["e", ["i", 4]]],
+    "int_3": [["py", 3], ["py", -1], ["py", -4], ["e", ["i", -2]], ["e", ["f", "h2"]]],
+    "real0_": [["py", 0], ["frac", "1/2"], ["frac", "301/2"], ["py", 250], ["float", 2.5]],
+    "real_100": [["py", 100], ["frac", "-3/2"], ["py", -4], ["e", ["r", "-1/4"]], ["e", ["f", "k2"]]],
     "T": [["obj", "oT"], ["obj", "oS"], ["e", ["o", "oS"]], ["e", ["f", "t2"]], ["e", ["f", "s"]]],
     "S": [["obj", "oS"], ["e", ["o", "oS"]], ["e", ["f", "s"]]],
     "U": [["obj", "oU"], ["e", ["f", "u"]]],
 }
-MATCHING_PARAMS = {"int05": [["e", ["p", "pI"]]], "T": [["e", ["p", "pT"]], ["e", ["p", "pS"]]], "S": [["e", ["p", "pS"]]], "int": [["e", ["p", "pI"]]]}
+MATCHING_PARAMS = {"int0_": [["e", ["p", "pH"]], ["e", ["p", "pI"]]], "int05": [["e", ["p", "pI"]]], "T": [["e", ["p", "pT"]], ["e", ["p", "pS"]]], "S": [["e", ["p", "pS"]]], "int": [["e", ["p", "pI"]]]}
 
 
 def plan(tier, seed):
@@ -201,7 +216,7 @@ def gen_history(rng):
         elif r < 0.8:
             cont = rng.choice(["inst", "dur", "prob"])
             name, t, sig = rng.choice(FLUENTS)
-            numeric = t in ("int05", "int", "real0_72", "real")
+            numeric = t in ("int05", "int", "real0_72", "real", "int0_", "int_3", "real0_", "real_100")
             kind = rng.choice(["assign", "assign", "inc", "dec"]) if numeric or rng.random() < 0.1 else "assign"
             hist.append(
                 {
@@ -231,13 +246,14 @@ def tclass(t):
 
 
 def classify(ttype, raw, env, need_const):
-    """(value type text, is_constant, intended_bad) using only auto_promote + the library's own is_compatible."""
+    """(value type text, is_constant, intended_bad) using auto_promote + the monitor's compatibility oracle (independent of the
+    library's type lattice for constants, Type.is_compatible for non-constant expressions)."""
     try:
         (v,) = env.expression_manager.auto_promote(raw)
         vt = v.type
     except Exception:
         return "unpromotable", None, None
-    bad = (not ttype.is_compatible(vt)) or (need_const and not v.is_constant())
+    bad = (not mt.compatible(ttype, v)) or (need_const and not v.is_constant())
     return str(vt), v.is_constant(), bad
 
 
@@ -280,6 +296,8 @@ def run_case(key, tier, res):
         for (tt, raw, nc), i in zip(targets, info):
             if i[2]:
                 res.nt((callkind, tclass(tt), i[0], i[1]))
+                if (tt.is_int_type() or tt.is_real_type()) and (tt.lower_bound is None) != (tt.upper_bound is None) and i[1]:
+                    res.count("half_bounded_target_with_bad_constant:" + outcome.split(":")[0])
         if outcome == "accepted":
             return out, True
         if not intended_bad:
@@ -457,6 +475,9 @@ def thresholds(m):
             out.append(f"fewer than 15 {ck} calls with an incompatible / non-constant value ({bad})")
         if good < 15:
             out.append(f"fewer than 15 accepted {ck} calls with a compatible value ({good})")
+    hb = c.get("half_bounded_target_with_bad_constant:accepted", 0) + c.get("half_bounded_target_with_bad_constant:rejected", 0)
+    if hb < 40:
+        out.append(f"fewer than 40 calls storing an inadmissible constant into a numeric target bounded on one side only ({hb})")
     if c.get("examples_scanned", 0) < 40:
         out.append("fewer than 40 example problems scanned")
     if len(m["nontrivial"]) < 60:
